@@ -13,7 +13,7 @@ NAMESPACE = 'Props.C09'
 LEAN_CONE = ['PncModel.Words', 'PncModel.Camx.Uamiv', 'PncModel.Camx.Slab', 'PncProofs.WordsLemmas', 'PncProofs.UamivLemmas', 'PncProofs.C09']
 LEMMA_FILES = ['PncProofs/WordsLemmas.lean', 'PncProofs/UamivLemmas.lean']
 REQUIRED_THEOREMS = ['tiles', 'header_counts', 'refDecode_encode', 'slab_tiles', 'slab_record_content', 'cloud_rain_tiles',
-                     'cloud_rain_counts', 'wind_tiles', 'wind_step_shape']
+                     'cloud_rain_counts', 'wind_tiles', 'wind_step_shape', 'boundary_tiles', 'boundary_counts']
 RULE = ('uamiv files (all four NAME variants, 1-3 species with names up to 10 characters, nx, ny 1-4, nz 1-3, '
         '1-3 steps, begin/end flags with and without ETFLAG, any finite float32 payload incl. denormals and -0): '
         'kind write = library writer bytes vs the Lean encoder and an independent python record walker; kind '
@@ -28,7 +28,7 @@ RULE = ('uamiv files (all four NAME variants, 1-3 species with names up to 10 ch
         'encoder and the record walker, kind cread = reference-encoded bytes read by the Memmap reader vs the encoded content; '
         'non-trivial = at least two of nspec, nx*ny, nz, nt are > 1 and pairwise different strides')
 ASSUMPTIONS = ['numpy tofile/memmap and float32 <-> bits conversion are trusted (exercised incl. denormals, -0)',
-               'covered: the uamiv family, the five slab formats and cloud_rain (layout model, reader by oracle); wind (writer; readers in C13); lateral_boundary, landuse and bpch (see C18) are not in this check']
+               'covered: the uamiv family, the five slab formats and cloud_rain (layout model, reader by oracle); wind (writer; readers in C13), lateral_boundary (layout model, reader and write-back by oracle); landuse and bpch (see C18) are not in this check']
 MIN_NONTRIVIAL = {'quick': 30, 'thorough': 300}
 
 
@@ -52,6 +52,10 @@ def gen(rng, tier):
         out.append(c)
     for i in range(n // 4):
         out.append(_gen_cr(rng, 'cwrite' if i % 2 == 0 else 'cread'))
+    for i in range(n // 8):
+        c = S.gen_bnd(rng)
+        c['kind'] = 'bnd'
+        out.append(c)
     for i in range(n // 8):
         c = S.gen_wind(rng)
         c['stag'] = rng.choice([0, 1])          # the writer always emits the three-word header
@@ -119,6 +123,62 @@ def _cr_build(c):
             v = f.createVariable(k, c['vdtype'], ('TSTEP', 'LAY', 'ROW', 'COL'))
             v[:] = bits[:, :, c['names'].index(k)]
     return f
+
+
+def _impl_bnd(case):
+    import os
+    import numpy as np
+    from PseudoNetCDF.pncgen import pncgen
+    from PseudoNetCDF.camxfiles.lateral_boundary.Memmap import lateral_boundary
+    p = os.path.join(camx.tmpdir(), 'c09b_%d_%d.bin' % (os.getpid(), np.random.randint(1 << 30)))
+    o = p + '.out'
+    try:
+        with lib.pnc_warnings():
+            b = S.bnd_encode(case)
+            open(p, 'wb').write(b)
+            f = lateral_boundary(p)
+            v = S.bnd_view(f, case)
+            pncgen(f, o, format='camxfiles.lateral_boundary', verbose=0)
+            v['hex'] = b.hex()
+            v['rewritten'] = open(o, 'rb').read().hex()
+            return v
+    except lib.HarnessError:
+        raise
+    except Exception as e:
+        return dict(err=type(e).__name__, msg=str(e)[:120])
+    finally:
+        for q in (p, o):
+            if os.path.exists(q):
+                os.remove(q)
+
+
+def _oracle_bnd(case, res):
+    if 'err' in res:
+        return 'raised %s %s' % (res['err'], res.get('msg'))
+    nt = len(case['tflag'])
+    if (res['nt'], res['nz'], res['ny'], res['nx']) != (nt, case['nz'], case['ny'], case['nx']):
+        return 'library reads dimensions %s' % ((res['nt'], res['nz'], res['ny'], res['nx']),)
+    for si, s in enumerate(case['species']):
+        for ei, e in enumerate(('WEST', 'EAST', 'SOUTH', 'NORTH')):
+            got = res['vars']['%s_%s' % (e, s)]
+            for t in range(nt):
+                if got[t] != case['bdata'][t][si][ei]:
+                    return 'library reads other values for %s_%s step %d than were encoded' % (e, s, t)
+    if res['tflag'] != [list(x) for x in case['tflag']]:
+        return 'TFLAG %s, encoded %s' % (res['tflag'], case['tflag'])
+    if res['etflag'] != [list(x) for x in case['etflag']]:
+        return 'ETFLAG %s, encoded %s' % (res['etflag'], case['etflag'])
+    try:
+        recs = camx.walk_records(bytes.fromhex(res['rewritten']))
+    except ValueError as e:
+        return 'the file written from the reader\'s content: records do not tile the file: %s' % e
+    if res['rewritten'] != res['hex']:
+        want = S.bnd_records(case)
+        for i, (a, b) in enumerate(zip(recs, want)):
+            if a != b:
+                return 'written back: record %d differs from the file that was read' % i
+        return 'written back: %d records, the file read has %d' % (len(recs), len(want))
+    return None
 
 
 def _impl_wind(case):
@@ -277,6 +337,8 @@ def _oracle_slab(case, res):
 
 
 def impl(case):
+    if case['kind'] == 'bnd':
+        return _impl_bnd(case)
     if case['kind'] == 'wwrite':
         return _impl_wind(case)
     if case['kind'] in ('cwrite', 'cread'):
@@ -298,6 +360,8 @@ def impl(case):
 
 
 def to_line(case, res):
+    if case['kind'] == 'bnd':
+        return S.bnd_line(case)
     if case['kind'] == 'wwrite':
         return S.wind_line(case)
     if case['kind'] in ('cwrite', 'cread'):
@@ -316,7 +380,7 @@ def agree(case, out, res):
         return None if out.startswith('err') else 'impl raised %s (%s), model %s' % (res['err'], res.get('msg'), out[:60])
     if not out.startswith('ok '):
         return 'model %s, impl returned' % out[:60]
-    if case['kind'] == 'cread':
+    if case['kind'] in ('cread', 'bnd'):
         return None if out[3:] == res['hex'] else 'the python reference encoder and the Lean encoder differ'
     if case['kind'] in ('swrite', 'cwrite', 'wwrite'):
         return None if out[3:] == res['hex'] else 'writer bytes differ from the reference encoding (first difference at byte %d)' % _firstdiff(out[3:], res['hex'])
@@ -342,6 +406,8 @@ def _firstdiff(a, b):
 
 def oracle(case, res):
     """independent python record walker: markers tile the file, header counts match, content recovered"""
+    if case['kind'] == 'bnd':
+        return _oracle_bnd(case, res)
     if case['kind'] == 'wwrite':
         return _oracle_wind(case, res)
     if case['kind'] in ('cwrite', 'cread'):
@@ -419,7 +485,7 @@ KEY_YEND = 'C08/uamiv-write/end-date-year-rollover'
 
 
 def classify(case, failure, model_out):
-    if case['kind'] in ('swrite', 'sread', 'cwrite', 'cread', 'wwrite'):
+    if case['kind'] in ('swrite', 'sread', 'cwrite', 'cread', 'wwrite', 'bnd'):
         return None
     if failure.startswith('end flag of a step ending at midnight 31 Dec'):
         return KEY_YEND
@@ -434,6 +500,8 @@ def _crosses_2000(case):
 
 
 def nontrivial(case, res):
+    if case['kind'] == 'bnd':
+        return len(case['tflag']) >= 2 or len(case['species']) >= 2
     if case['kind'] in ('swrite', 'sread', 'cwrite', 'cread', 'wwrite'):
         return len({case['nz'], case['nx'] * case['ny'], len(case['flags'])} - {1}) >= 2
     dims = [len(case['species']), case['nx'] * case['ny'], case['nz'], len(case['tflag'])]
